@@ -312,3 +312,19 @@ func FuzzC03Sighash(f *testing.F) {
 		fuzzJudge(t, "C03", "sighash", &shCase{Shape: *s, Idx: uint32(idx) % uint32(len(s.Ins)+1), HashType: hashType &^ 0x40})
 	})
 }
+
+// ---------------------------------------------------------------- C16
+
+func FuzzC16Tx(f *testing.F) {
+	r := prng.New(1, "fuzz-seeds-c16", 0)
+	for i := 0; i < 24; i++ {
+		f.Add(r.Bytes(40+r.Intn(600)), uint8(i%4), uint8(1+i%4), uint32(1+i%2), uint32(i))
+	}
+	f.Fuzz(func(t *testing.T, blob []byte, nIns, nOuts uint8, version, locktime uint32) {
+		s := shapeFromBlob(blob, nIns, nOuts, version, locktime)
+		if s == nil || len(blob) > 8000 {
+			t.Skip()
+		}
+		fuzzJudge(t, "C16", "tx", &c16Tx{Shape: *s, Stage: "coverage-guided"})
+	})
+}
